@@ -18,6 +18,7 @@ GFA1 = {
     "l9": ("L\tC\t-\tB\t-\t2M", ["sB", "sC"]),            # complement of l7
     "l10": ("L\tA\t+\tC\t+\t*\tID:Z:lk", ["sA", "sC"]),
     "l11": ("L\tB\t+\tA\t+\t3M", ["sA", "sB"]),
+    "l12": ("L\tC\t+\tC\t-\t2M1I", ["sC"]),                   # hairpin whose CIGAR is not its own complement
     "c1": ("C\tA\t+\tC\t+\t1\t2M", ["sA", "sC"]),
     "c2": ("C\tB\t-\tC\t+\t0\t*\tID:Z:cn", ["sB", "sC"]),
     "p1": ("P\tp1\tA+,B+\t2M", ["l1"]),
@@ -27,6 +28,8 @@ GFA1 = {
     "p5": ("P\tp5\tB-,A-\t2M", ["l1"]),                    # traverses l1 as its complement
     "p6": ("P\tp6\tB+,C+\t2M", ["l9"]),                    # the link is written in the complement form of this path's direction
     "p7": ("P\tp7\tC-,B-\t2M", ["l9"]),
+    "p8": ("P\tp8\tC+,C-\t2M1I", ["l12"]),                 # traverses the hairpin as written
+    "p9": ("P\tp9\tC+,C-\t1D2M", ["l12"]),                 # traverses the hairpin in its complement form
     "h1": ("H\tVN:Z:1.0", []),
     "h2": ("H\txx:i:1", []),
     "h3": ("H\txx:i:2", []),
